@@ -334,9 +334,9 @@ def cli_forwards(command_node, flag, callee_name, callee_params, param):
     for d in command_node.decorator_list:
         if isinstance(d, ast.Call) and call_name(d).split(".")[-1] in ("option", "argument"):
             strs = [a.value for a in d.args if isinstance(a, ast.Constant) and isinstance(a.value, str)]
-            if flag in strs:
+            if flag in strs or flag in [x.split("/")[0] for x in strs]:
                 plain = [x for x in strs if not x.startswith("-")]
-                longs = [x for x in strs if x.startswith("--")]
+                longs = [x.split("/")[0] for x in strs if x.startswith("--")]  # `--flag/--no-flag` is named after the first
                 var = plain[0] if plain else (longs[0][2:].replace("-", "_") if longs else None)
     if var is None:
         return False, "the command has no option %s" % flag
